@@ -12,7 +12,7 @@ fn h(n: Names, t: &str) -> Names {
 pub fn doc_field(k: usize) -> P {
     let arg = |n: Names, mv: &str| P::Arg { names: n, ty: Ty::Os, adjacent: false, metavar: mv.into() };
     match k {
-        0 => P::Switch(h(Names::both('a', "alpha"), "alpha switch help")),
+        0 => P::Switch(h(Names::both('a', "alpha").env("BPAFMC_DOC"), "alpha switch help")),
         1 => arg(h(Names::long("beta").env("BPAFMC_DOC"), "beta argument help"), "BETA"),
         2 => arg(Names::short('c'), "CEE"),
         3 => P::Switch(h(Names::both('d', "delta"), "hidden thing")).hide(),
